@@ -51,12 +51,25 @@ fn main() {
             let g = args[2].clone();
             let count: u64 = args[3].parse().unwrap();
             let mut rng = verif_harness::prng::Rng::from_env();
+            let mut livelocks = 0;
             for i in 0..count {
                 let mut r = rng.fork();
                 let script = rtcgens::generate(&g, &mut r, i, &mut stats);
                 *CURRENT.lock().unwrap() = script.join("\n");
-                for l in run_script(&script) {
+                let lines = run_script(&script);
+                let livelock = lines.iter().any(|l| l == "ev livelock");
+                for l in lines {
                     writeln!(out, "{l}").unwrap();
+                }
+                if livelock {
+                    livelocks += 1;
+                    if livelocks >= 3 {
+                        // every such case costs ten seconds of real time: three are enough to report
+                        out.flush().unwrap();
+                        eprintln!("LIVELOCK the process did not become quiescent in {livelocks} cases; the last one:");
+                        eprintln!("{}", CURRENT.lock().unwrap());
+                        std::process::exit(3);
+                    }
                 }
             }
         }
